@@ -119,6 +119,7 @@ template <class X> void run(Ctx& c, const Str& Ss, const Str& Bs, const char* ge
         D.live = true;
         Str rt = D.text_of_fields();
         what += fmt(" reference=\"%s\"", esc(rt).c_str());
+        produced_equals_own_text<X>(c, D.u, "shorten", root ? "createref-domain-root" : "createref", what);
         c.distinct(hash_str(Ss + "\x01" + Bs, (uint64_t)root));
         bool schemesDiffer = ms.scheme != mb.scheme;
         c.count(schemesDiffer ? "case_schemes_differ" : !same_authority(ms, mb) ? "case_authority_differs" : root ? "case_domain_root" : "case_relative_path");
